@@ -16,7 +16,7 @@ from .props import PROPS
 
 VERIF = os.path.dirname(os.path.dirname(os.path.abspath(__file__)))
 REPO = os.environ.get('VERIF_REPO', '/repo')
-EVID = os.path.join(VERIF, 'evidence')
+EVID = os.environ.get('VERIF_EVIDENCE_DIR') or os.path.join(VERIF, 'evidence')
 REPLAYS = os.environ.get('VERIF_REPLAYS_DIR') or os.path.join(VERIF, 'replays')
 KNOWN = os.path.join(VERIF, 'known_findings.txt')
 
@@ -107,6 +107,26 @@ def verus_part(prop, tier, seed, tmp):
             else:
                 f['klass'] = 'unstable'
                 undec.append(f)
+    extra = {}
+    if tier == 'thorough':
+        st, vac, nchk, why = verusleg.vacuity_check(os.path.join(REPO, 'src'), os.path.join(tmp, 'verus_vac'))
+        extra['vacuity_guard'] = dict(status=st, functions_checked=nchk, vacuous=vac, reason=why,
+                                      rule='assert(false) as first statement of every contracted body must fail')
+        for k in vac:
+            undec.append(dict(fn=k, name='vacuity guard', klass='vacuous', msg='assert(false) verified: the requires clause is unsatisfiable'))
+        seeds_ok = []
+        for k in (1, 2):
+            wd3 = os.path.join(tmp, 'verus_thorough_seed%d' % k)
+            os.makedirs(wd3, exist_ok=True)
+            o3 = verusleg.run(os.path.join(REPO, 'src'), wd3, seed=(seed or 0) * 13 + 500 + k * 104729, log_air=False)
+            rel = [g for g in o3.failures if prop in g['tags']]
+            seeds_ok.append(dict(seed=(seed or 0) * 13 + 500 + k * 104729, status=o3.status, verified=o3.verified, relevant_failures=len(rel)))
+            for g in rel:
+                if not any(f['fn'] == g['fn'] and f['name'] == g['name'] for f in out.failures):
+                    g = dict(g)
+                    g['klass'] = 'unstable (fails only under solver seed %d)' % ((seed or 0) * 13 + 500 + k * 104729)
+                    undec.append(g)
+        extra['reseeded_runs'] = seeds_ok
     # obligations relevant to this property
     obl, dis = 0, 0
     samples = []
@@ -144,6 +164,7 @@ def verus_part(prop, tier, seed, tmp):
                             leg='verus', backend='Z3 (via Verus %s)' % out.version, solver_ms=st.get('time_ms'), rlimit=st.get('rlimit'),
                             verified=bool(st.get('success', False)), trusted=meta.get('trusted', False),
                             extraction=meta.get('rewrites', [])))
+    ev.update(extra)
     ev.update(obligations=obl, discharged=dis, functions=fn_rows, samples=samples,
               trusted_base=out.trusted_scan + out.gen.trusted,
               source_files=out.gen.files,
@@ -165,7 +186,30 @@ def kani_part(prop, tier, seed, tmp, only=None):
         return None
     scratch = os.path.join(tmp, 'kani')
     all_pairs = kanileg.all_pairs()
-    out = kanileg.run(REPO, scratch, pairs, all_pairs=all_pairs)
+    htimeout = 600 if tier == 'quick' else 1800
+    out = kanileg.run(REPO, scratch, pairs, all_pairs=all_pairs, harness_timeout=htimeout)
+    # a failed unwinding assertion means the loop bound of the harness was too small for the code as it is now:
+    # retry those harnesses once with a doubled bound before calling them undecided
+    if out.status == 'ok':
+        redo, override = [], {}
+        for e, n in pairs:
+            nm = harness_name(e, n)
+            r = out.results.get(nm)
+            if r and any('unwinding assertion' in f['desc'] for f in r['failures']):
+                u = e['unwind'](n) if callable(e['unwind']) else e['unwind']
+                override[nm] = 2 * u + 4
+                redo.append((e, n))
+        if redo:
+            scratch2 = os.path.join(tmp, 'kani_retry')
+            out2 = kanileg.run(REPO, scratch2, redo, all_pairs=all_pairs, harness_timeout=htimeout, unwind_override=override)
+            if out2.status == 'ok':
+                for e, n in redo:
+                    nm = harness_name(e, n)
+                    if nm in out2.results and out2.results[nm]['status'] in ('success', 'failed'):
+                        out.results[nm] = out2.results[nm]
+                        out.results[nm]['retried_with_unwind'] = override[nm]
+                out.cmds += out2.cmds
+            shutil.rmtree(os.path.join(scratch2, 'target0'), ignore_errors=True)
     ev = dict(status=out.status, reason=out.reason, cmds=out.cmds, wall_s=round(out.wall_s, 2), kani_version=out.version,
               injected=out.injected)
     if out.status != 'ok':
@@ -196,7 +240,10 @@ def kani_part(prop, tier, seed, tmp, only=None):
             passed += r['checks'] - r['failed']
             continue
         for f in r['failures']:
-            tags, kind = kanileg.classify_failure(e, f['desc'])
+            tags, kind = kanileg.classify_failure(e, f['desc'], f.get('loc', ''))
+            if kind == 'harness':
+                undec.append('%s: harness-internal check failed (%s %s)' % (nm, f['desc'], f['loc']))
+                continue
             if kind == 'unwind':
                 undec.append('%s: unwinding assertion failed (bound %s too small)' % (nm, e['unwind'](n) if callable(e['unwind']) else e['unwind']))
                 continue
@@ -214,6 +261,47 @@ def kani_part(prop, tier, seed, tmp, only=None):
     ev.update(harnesses=rows, checks=checks, checks_passed=passed, capacities=sorted(ns), undecided=undec)
     status = 'ok' if not undec else 'partial'
     return dict(status=status, violations=vs, evidence=ev, out=out, scratch=scratch, reason='; '.join(undec))
+
+
+# ---------------------------------------------------------------------------------------------
+# bounded native stand-in (C05 / C06 unwinding paths)
+
+def native_part(prop, tier, tmp, only=None):
+    pairs = kanileg.select(prop, tier, only=only, native=True)
+    if not pairs:
+        return None
+    scratch = os.path.join(tmp, 'native')
+    logl = []
+    ev = dict(kind='BOUNDED stand-in: native execution of the real code with one injected, caught panic per run; '
+                   'exhaustive over the odometer domain for each listed capacity; bounded in N; never counted as proved')
+    try:
+        kanileg.make_scratch(REPO, scratch, kanileg.all_pairs(), logl)
+    except Exception as ex:
+        return dict(status='undecided', reason='scratch construction failed: %s' % ex, violations=[], evidence=ev, scratch=scratch)
+    exe, err = build_native_runner(scratch, '')
+    if not exe:
+        return dict(status='undecided', reason='native build of the scratch crate failed: ' + err[-400:], violations=[], evidence=ev, scratch=scratch)
+    vs, rows, undec = [], [], []
+    for e, n in pairs:
+        nm = harness_name(e, n)
+        r = replay_search(exe, nm, '', budget=5000000, timeout=900)
+        rows.append(dict(scenario=nm, N=n, status=r.get('status'), runs=r.get('runs')))
+        if r.get('status') == 'hit':
+            msg = r.get('message', '')
+            tags = set()
+            for m in re.finditer(r'\[([A-Z0-9, ]+)\]', msg):
+                tags.update(t.strip() for t in m.group(1).split(','))
+            if prop in tags or not tags:
+                first = [x for x in msg.split(' || ') if ('[' not in x) or prop in x] or [msg]
+                vs.append(dict(property=prop, leg='native-bounded', function=e['fn'], obligation=first[0][:200], n=n, harness=nm,
+                               detail='%s at N=%d: %s' % (e['fn'], n, first[0][:300]), verifier_output=msg,
+                               prefound=dict(harness=nm, choices=r.get('choices', ''), inputs=r.get('inputs', ''), message=msg, runs=r.get('runs'))))
+            else:
+                undec.append('%s: scenario failed only clauses of other properties: %s' % (nm, msg[:200]))
+        elif r.get('status') != 'exhausted':
+            undec.append('%s: enumeration not completed (%s)' % (nm, r.get('status')))
+    ev.update(scenarios=rows, undecided=undec)
+    return dict(status='ok' if not undec else 'partial', violations=vs, evidence=ev, scratch=scratch, reason='; '.join(undec))
 
 
 # ---------------------------------------------------------------------------------------------
@@ -357,7 +445,10 @@ def check(prop, tier, seed, legs=('verus', 'kani'), keep=False, only=None):
     try:
         vp = verus_part(prop, tier, seed, tmp) if 'verus' in legs else None
         kp = kani_part(prop, tier, seed, tmp, only=only) if 'kani' in legs else None
+        np_ = native_part(prop, tier, tmp, only=only) if 'native' in legs or 'kani' in legs else None
         violations = []
+        if np_:
+            violations += np_['violations']
         if vp:
             violations += vp['violations']
         if kp:
@@ -385,7 +476,10 @@ def check(prop, tier, seed, legs=('verus', 'kani'), keep=False, only=None):
         for v, _ in new_v:
             hit = None
             cands = []
-            if v['leg'] == 'rustc':
+            if v.get('prefound'):
+                hit = v['prefound']
+                cands, scratch, feats = [], '', ''
+            elif v['leg'] == 'rustc':
                 cands, scratch, feats = [], '', ''
             elif v['leg'] == 'kani':
                 cands = [(v['harness'], v['obligation'][:60] if v['obligation'].startswith('[') else '')]
@@ -427,7 +521,7 @@ def check(prop, tier, seed, legs=('verus', 'kani'), keep=False, only=None):
             log(ln)
         undecided_all = True
         statuses = []
-        for part in (vp, kp):
+        for part in (vp, kp, np_):
             if part:
                 statuses.append(part['status'])
         if new_v:
@@ -436,10 +530,10 @@ def check(prop, tier, seed, legs=('verus', 'kani'), keep=False, only=None):
             rc = 2
             log('UNDECIDED property=%s: %s' % (prop, '; '.join(p['reason'] for p in (vp, kp) if p and p.get('reason'))))
         else:
-            for part, nm in ((vp, 'verus'), (kp, 'kani')):
+            for part, nm in ((vp, 'verus'), (kp, 'kani'), (np_, 'native bounded stand-in')):
                 if part and part['status'] != 'ok':
                     log('note: %s leg %s: %s' % (nm, part['status'], part.get('reason', '')))
-        write_evidence(prop, tier, seed, spec, vp, kp, new_v, known_v, fixed, time.time() - t0)
+        write_evidence(prop, tier, seed, spec, vp, kp, new_v, known_v, fixed, time.time() - t0, np_)
         if rc == 0:
             log('OK property=%s tier=%s wall=%.1fs' % (prop, tier, time.time() - t0))
     finally:
@@ -450,7 +544,7 @@ def check(prop, tier, seed, legs=('verus', 'kani'), keep=False, only=None):
     return rc
 
 
-def write_evidence(prop, tier, seed, spec, vp, kp, new_v, known_v, fixed, wall):
+def write_evidence(prop, tier, seed, spec, vp, kp, new_v, known_v, fixed, wall, np_=None):
     os.makedirs(EVID, exist_ok=True)
     level = spec['level']
     cov = {}
@@ -486,6 +580,8 @@ def write_evidence(prop, tier, seed, spec, vp, kp, new_v, known_v, fixed, wall):
         cov['kani_leg_bounded_in_N'] = kev
         cov['bounded_stand_in'] = ('Kani contract harnesses are complete per instantiated capacity N in %s and per element type; '
                                    'they are BOUNDED IN N and are not counted in obligations/discharged' % (kev.get('capacities'),))
+    if np_:
+        cov['bounded_native_stand_in'] = np_['evidence']
     cov['functions_under_contract'] = sorted(set([r['function'] for r in (vev or {}).get('functions', [])] +
                                                  [r['contract'] for r in (kev or {}).get('harnesses', [])]))
     cov['not_covered'] = spec.get('not_covered', [])
